@@ -170,6 +170,23 @@ func (model *ProtDistModel) opt_Dist_F(dist float64, F *mat.Dense) float64 {
 	bx = dist
 	cx = BL_MAX
 
+	// The likelihood of a pair may have several local maxima, and Brent's method finds
+	// only one of them: it is started from the best point of a logarithmic grid over
+	// [BL_MIN, BL_MAX], bracketed two grid steps away on each side (the maximum lies
+	// within one step of it)
+	const ngrid = 60
+	bestlk := model.lk_Dist(F, dist)
+	step := math.Pow(BL_MAX/BL_MIN, 1./float64(ngrid-1))
+	for i, t := 0, BL_MIN; i < ngrid; i, t = i+1, t*step {
+		if lk := model.lk_Dist(F, t); lk > bestlk {
+			bestlk = lk
+			bx = t
+		}
+	}
+	ax = math.Max(BL_MIN, bx/(step*step))
+	cx = math.Min(BL_MAX, bx*step*step)
+	dist = bx
+
 	optdist = dist
 	model.dist_F_Brent(ax, bx, cx, 1.E-7, 1000, &optdist, F)
 	return optdist
